@@ -43,13 +43,14 @@ LOSSES = ["l2_amplitude", "l1_amplitude", "l2_intensity", "l1_intensity"]
 # The library works in float32/complex64.  With a0 = sqrt(mean pattern intensity) the rounding error of
 # a predicted or preprocessed amplitude is k * eps32 * a0 / sqrt(Npix) per pixel with k of order 1..10
 # (FFT chains of <= 4 slices).  Summed over J patterns and normalised by the mean intensity this gives
-# the scalings below; K_* are the head-room factors over the largest value measured on the clean tree.
-K_L2_AMP = 4e-11  # * J                      measured max 1.6e-13 * J
-K_L1_AMP = 2e-5  # * J * sqrt(Npix / Imean)  measured max 2.2e-7
-K_L2_INT = 4e-12  # * J * Imean              measured max 1.0e-14 (per unit of peak/mean ratio, see below)
-K_L1_INT = 1e-4  # * J                       measured max 8e-7
-REL_REF = 2e-4  # library loss vs reference loss at a perturbed point (relative)
-GRAD_RATIO = 1e-3  # |grad L|(truth) <= GRAD_RATIO * |grad L|(perturbed), l2 losses
+# the scalings below (x a factor for the float32 propagator phase, see truth_tol).  "measured" = largest
+# truth loss / tolerance over ~6000 clean-tree cases (8 seeds): every constant leaves >= 20x head-room.
+K_L2_AMP = 4e-11  # * J                       measured 0.008
+K_L1_AMP = 2e-5  # * J * sqrt(Npix / Imean)   measured 0.05
+K_L2_INT = 4e-12  # * J * Imean * peak/mean   measured 0.011
+K_L1_INT = 1e-4  # * J                        measured 0.044
+REL_REF = 2e-4  # library loss vs reference loss at a perturbed point (relative); measured <= 4.3e-6
+GRAD_RATIO = 1e-3  # |grad L|(truth) <= GRAD_RATIO * |grad L|(perturbed), l2 losses; measured <= 3.5e-5
 VISIBLE = 1e3  # the reference loss at a perturbed point must exceed VISIBLE * tol to be asserted on
 
 
@@ -233,7 +234,6 @@ def _eval(ctx, case, pt, batches, lt, J, want_grad):
 
 
 def check(ctx, case):
-    torch = B.Q().torch
     R, C = case["roi"]
     g0, g1 = case["gpts"]
     J = g0 * g1
@@ -332,6 +332,9 @@ def check(ctx, case):
     where = "S=%d M=%d %s roi=%s descan=%s" % (S, M, case["obj_type"], case["roi"], case["descan"])
     if L0 > tol:
         rel = float(np.abs(pred0 - meas).max() / meas.max())
+        if outside:
+            where += "; the raster reaches beyond the last object pixel (object %s, largest position %s): the default "\
+                "clip_scan_positions constraint moves those scan points [%s]" % (list(shape2d), np.round(pos.max(axis=0), 3).tolist(), KEY_CLIP)
         _fail(
             case,
             "%s at the ground truth is %.3e (tolerance %.3e; %s); library prediction differs from the reference "
@@ -397,10 +400,10 @@ def check(ctx, case):
 
 
 def search(ctx):
-    # quick: 4 workers x 300 cases (~50-80 s wall on a shared machine, ~0.07-0.15 s per case);
+    # quick: 4 workers x 220 cases (~35-90 s wall depending on the load of the shared machine, 0.07-0.25 s per case);
     # thorough: 16 workers x 3000.  No shrink phase: a failing case is already a small JSON description.
     odd_open = _open(ctx, KEY_ODD)
-    n = ctx.n(300, 3000)
+    n = ctx.n(220, 3000)
     core.run_given(ctx, "c02", cases(even_only=False), lambda c: check(ctx, c), n, shrink=False)
     if odd_open:
         ctx.extra["note"] = "odd ROI with no_shift skipped (open finding %s)" % KEY_ODD
